@@ -229,3 +229,12 @@ Theorem fixed_timezone_native : forall o W,
   (forall W', fixed_fromutc o W = Ok W' -> W' = fst (render (fixed_zone o) W)).
 Proof. exact (@fixed_timezone_native). Qed.
 Print Assumptions fixed_timezone_native.
+
+(* __str__ (overridden by DateTime) is the inherited isoformat with a blank separator; for_json is isoformat(); format(x, "") is str(x); the separator does not change the length. The character-level model is compared with str()/isoformat()/for_json()/format() of the implementation on every unary case. *)
+Theorem str_is_isoformat : forall x,
+  std_lookup "DateTime" "__str__" = Some (0, "DateTime"%string) /\ std_lookup "DateTime" "isoformat" = Some (1, "datetime"%string) /\
+  std_lookup "DateTime" "__format__" = Some (0, "FormattableMixin"%string) /\
+  pd_str x = native_isoformat 32 x /\ pd_for_json x = native_isoformat 84 x /\ pd_format_empty x = native_isoformat 32 x /\
+  (forall sep, List.length (native_isoformat sep x) = List.length (native_isoformat 32 x)).
+Proof. exact (@str_is_isoformat). Qed.
+Print Assumptions str_is_isoformat.
